@@ -61,6 +61,10 @@ func OnlyClasses(v ssa.Value, allowed ...string) (bool, []string) {
 			if t := ThinTarget(c); t != "" && t == a {
 				ok = true // a helper that only forwards the accepted producer
 			}
+			// a local of type T read directly or through a pointer handed to a helper: the same thing
+			if strings.HasPrefix(c, "*alloc:") && a == "local:"+strings.TrimPrefix(c, "*alloc:") {
+				ok = true
+			}
 		}
 		if !ok {
 			bad = append(bad, c)
